@@ -220,6 +220,105 @@ def check_reversal_claims(ck, fn, main_paths):
     ck.floor('reversal-claiming computing paths judged', n_judged, 1)
 
 
+def check_fallback_duration(ck, fn, main_paths, deep=False):
+    """D12 - a computing path that hands back a *constant* duration (the fallback 0 kept when
+    no root of the duration quadratic is accepted) may not be taken by a move that takes steps:
+    such a move needs at least one tick.  Witness rule: the path conditions (rounded roots
+    included, square roots evaluated exactly for perfect squares and to 40 digits otherwise)
+    are evaluated on a grid of small moves; a point that satisfies all conditions of such a path
+    is an input for which calculate_lm reports that duration.  Witnesses are classified by the
+    path they lie on - single direction (position = +-steps) or both directions (a reversal
+    inside the move) - and by whether a rounded root *equals* the reversal tick there (the
+    accumulator touches a step threshold exactly at the reversal), and are reported per class,
+    so that one known family does not hide another."""
+    from fractions import Fraction
+    q = fn.qualname
+    steps = V('steps')
+    rates = (0, 1, -1, 3, -3, 10, -8, 11, -44, 27, 1000, -1000) if deep else \
+        (0, 1, -3, 3, 11, -44, 1000, -1000)
+    accels = (0, 1, -1, 3, -3, 5, -9, -19, 44, 1000, -1000) if deep else \
+        (0, 1, 3, -3, -19, 44, 1000, -1000)
+    grid = [(sv, rv, av) for sv in ((1, 2, 3, 5, 10) if deep else (1, 2, 3))
+            for rv in rates for av in accels]
+    accums = (Fraction(0), Fraction(2 ** 31 - 1), Fraction(2 ** 30)) if deep else \
+        (Fraction(0), Fraction(2 ** 31 - 1))
+    paths = {'numeric': [], 'clear': []}
+    for o, cut, mode in main_paths:
+        if not (isinstance(o.value, Tup) and len(o.value.items) == 3):
+            continue
+        t_f, pos = o.value.items[0], o.value.items[1]
+        if not (isinstance(t_f, Sym) and t_f.is_const()) or not isinstance(pos, Sym):
+            continue
+        conds = []
+        for c_, t_ in o.state.path:
+            nc = motion.norm_path_cond(c_, t_)
+            if nc is None:
+                conds = None
+                break
+            conds.append((nc[0].fingerprint() if hasattr(nc[0], 'fingerprint') else repr(nc[0]),
+                          nc[1], nc[0]))
+        if conds is None:
+            continue
+        conds.sort(key=lambda c: len(c[2].all_atoms()))
+        ratio = pos / steps
+        cls_ = 'single direction' if (ratio.is_const() and abs(ratio.const_value()) == 1) \
+            else 'both directions'
+        paths[mode].append((conds, cls_, t_f, pos))
+    found = {}
+    n_eval = 0
+    poly.APPROX_SQRT[0] = True
+    try:
+        for mode in ('numeric', 'clear'):
+            for sv, rv, av in grid:
+                for acc in (accums if mode == 'numeric' else accums[:1]):
+                    asg = {'steps': Fraction(sv), 'rate': Fraction(rv), 'accel': Fraction(av),
+                           'accum': acc}
+                    cache = {}
+
+                    def val(fp, e):
+                        if fp not in cache:
+                            try:
+                                cache[fp] = e.evaluate(asg)
+                            except (ZeroDivisionError, KeyError, ValueError, OverflowError):
+                                cache[fp] = None
+                        return cache[fp]
+                    # the paths partition the inputs: at most one of them is taken at this point
+                    for conds, cls_, t_f, pos in paths[mode]:
+                        ok = True
+                        for fp, op, e in conds:
+                            v_ = val(fp, e)
+                            if v_ is None or not motion._holds(v_, op):
+                                ok = False
+                                break
+                        if not ok:
+                            continue
+                        touch = any(cache[fp] == 0 and op in ('<=', '>=') and
+                                    {'CEIL', 'FLOOR'} <= {a[1] for a in e.all_atoms() if a[0] == 'f'}
+                                    for fp, op, e in conds)
+                        label = cls_ + (', root on the reversal tick' if touch else '')
+                        if label not in found:
+                            found[label] = (sv, rv, av, int(acc) if mode == 'numeric' else 'clear',
+                                            t_f.const_value(), pos.evaluate(asg))
+                        break
+                    n_eval += 1
+    finally:
+        poly.APPROX_SQRT[0] = False
+    for cls_ in ('single direction', 'single direction, root on the reversal tick',
+                 'both directions', 'both directions, root on the reversal tick'):
+        w = found.get(cls_)
+        ck.ob('C03-D12-fallback-duration', '%s[%s paths]' % (q, cls_), w is None,
+              'calculate_lm(%s, %s, %s, %r) reports the duration %s (position %s): the fallback '
+              'kept when no root of the duration quadratic is accepted, although the move takes '
+              'steps and therefore at least one tick (%s path)'
+              % ((w[0], w[1], w[2], w[3], w[4], w[5], cls_) if w else (0, 0, 0, 0, 0, 0, cls_)),
+              fn.loc(), key='calculate_lm::fallback-duration:%s'
+              % cls_.replace(',', '').replace(' ', '-'))
+    ck.saw('fallback_paths', {m: len(v) for m, v in paths.items()})
+    ck.floor('constant-duration computing paths examined',
+             len(paths['numeric']) + len(paths['clear']), 1)
+    ck.floor('moves evaluated against the constant-duration paths', n_eval, 300)
+
+
 def check_root_guard(ck, fn, main_paths):
     """D8: the roots of the duration quadratic are computed for every non-negative discriminant.
     A path that skips the square root may do so only under discriminant < 0 (no real root); a
@@ -439,7 +538,8 @@ def run(ck, prog, tier):
         'on the step count lies in the region of (rate, accel) where the rate keeps its sign '
         'after tick 1 (compared on integer points; this rule found defect F10); (D11) a path '
         'taken because the step count exceeds the steps made before a reversal lies where the rate '
-        'does change sign after tick 1; (D10) the steps '
+        'does change sign after tick 1; (D12) no move of a witness grid takes a computing path that '
+        'returns a constant (fallback) duration - one family is the recorded known finding K1; (D10) the steps '
         'made before a reversal are FLOOR(|C(T)|/2^31) with the accumulator polynomial of D3 at '
         'the reversal tick. NOT decided (no static rule in reach): that the chosen root is the '
         '*first* tick reaching the budget when the accumulator lands exactly on a step boundary, '
@@ -652,6 +752,7 @@ def run(ck, prog, tier):
     check_root_guard(ck, fn, main_paths)
     check_reversal_classification(ck, fn, main_paths)
     check_reversal_claims(ck, fn, main_paths)
+    check_fallback_duration(ck, fn, main_paths, deep=(tier == 'thorough'))
     check_root_positive(ck, fn, main_paths)
     check_steps_before_reversal(ck, fn, main_paths)
     n_paths, n_ops = motion.check_precision(ck, 'C03-D5-precision', fn, all_out)
